@@ -378,3 +378,5 @@ def run(ctx):
     boundaries.check_writes(ctx, 'C20.RW', 'C20')
     from .. import errdisc
     errdisc.check(ctx, 'C20.RD', 'C20', 27)
+    from . import C06
+    C06.r1b_path_sites(ctx, 'C20.R10')  # a handle operation on another thread announces its work: the connection task is woken after it queues anything
